@@ -69,6 +69,8 @@ def _make_stream(res):
 
 def run_session(case):
     setup()
+    # the verbose code paths behind `logger.isEnabledFor(DEBUG)` are code of the server too
+    logging.getLogger("vinegar").setLevel(logging.DEBUG if case.get("debug_log") else logging.ERROR)
     from vinegar.tftp.server import TftpServer, TftpRequestHandler, TftpError
     from vinegar.tftp.protocol import ErrorCode
 
